@@ -17,6 +17,9 @@ spec/UtxoSave.tla   Main / Saver / Writer goroutines of lib/utxo/unspent_db.go, 
      reorganisations) and the Ledger G->R suite (ForkA / ForkB / Rules) re-run for GOMAXPROCS 1,2,4,16 with
      VERIF_YIELD perturbation; results must not depend on the schedule; all of it also under the race detector:
      a report whose two accesses are inside the repository is a violation of the first clause.
+     Also: blocks refused inside commitTxs while the script workers of an earlier 150-input transaction run (child
+     processes, GOMAXPROCS 1..16, normal + race: refused, state unchanged, no crash), and the background block writer
+     (Idle) next to BlockTrusted of written blocks (every record must come back after a reopen).
   5. binding self-tests.
 """
 import glob, json, os, re, shutil
@@ -231,6 +234,32 @@ def stress(ctx, binp, tag, seed, rounds, env=None):
     return summ, [j for j in js if "kind" in j]
 
 
+def child(ctx, binp, cmd, tag, args, env=None):
+    """Run a driver that may be killed by the code under test (panic / SIGSEGV in a stray goroutine).
+    Returns (summary or None, failures, crash or None)."""
+    d = os.path.join(ctx.scratch, "%s-%s" % (cmd, tag))
+    os.makedirs(d, exist_ok=True)
+    p = ctx.run([binp, cmd, "-dir", d] + args, timeout=3000, env=env)
+    shutil.rmtree(d, ignore_errors=True)
+    js = jlines(p)
+    summ = next((j for j in js if j.get("summary")), None)
+    fails = [j for j in js if "kind" in j]
+    crash = None
+    if p.returncode != 0:
+        m = re.search(r"^(panic: .*|fatal error: .*|unexpected fault address.*|\[signal SIG.*)$", p.stderr, re.M)
+        repo = os.path.realpath(ctx.repo) + "/"
+        fr = re.findall(r"^(\S.*)\n\t(\S+?):(\d+)", p.stderr, re.M)
+        top = next((f for f in fr if os.path.realpath(f[1]).startswith(repo) and "/lib/others/verif/" not in f[1]), None)
+        if not m or top is None:
+            raise Infra("%s driver failed rc=%d: %s" % (cmd, p.returncode, p.stderr[-3000:]))
+        i = p.stderr.find(m.group(1))
+        crash = {"what": m.group(1), "where": "%s (%s:%s)" % (re.sub(r"\([^()]*\)$", "", top[0]).replace("github.com/piotrnar/gocoin/", ""), os.path.basename(top[1]), top[2]),
+                 "func": re.sub(r"\([^()]*\)$", "", top[0]).replace("github.com/piotrnar/gocoin/", ""), "stderr": p.stderr[i:i + 5000]}
+    elif summ is None:
+        raise Infra("%s driver gave no summary: %s" % (cmd, p.stderr[-2000:]))
+    return summ, fails, crash
+
+
 def report_run(ctx, fails, tag, replay):
     for f in fails:
         if f["kind"] == "infra":
@@ -393,6 +422,28 @@ def run(ctx):
                 env.update(race_env(ctx, tag))
             rounds = (3 if race else 6) if quick else (12 if race else 40)
             stjobs.append((gmp, race, tag, ex.submit(stress, ctx, binr if race else binp, tag, ctx.seed + gmp, rounds, env)))
+    # refusal inside commitTxs while script workers run (child processes: a crash of the child is the finding),
+    # and the block writer next to BlockTrusted (outcome after a reopen)
+    chjobs = []
+    for gmp in (1, 2, 4, 16):
+        for race in (False, True):
+            if race and quick and gmp not in (1, 16):
+                continue
+            tag = "f%d%s" % (gmp, "r" if race else "")
+            env = {"GOMAXPROCS": str(gmp)}
+            if race:
+                env.update(race_env(ctx, tag))
+            args = ["-seed", str(ctx.seed + gmp), "-rounds", str((2 if race else 3) if quick else (6 if race else 12))]
+            chjobs.append(("refuse", gmp, race, tag, args, ex.submit(child, ctx, binr if race else binp, "refuse", tag, args, env)))
+    for gmp in (2, 4, 16):
+        for k in range(2 if quick else 6):
+            tag = "b%d-%d" % (gmp, k)
+            args = ["-seed", str(ctx.seed * 10 + k), "-rounds", "60", "-batch", "400"]
+            chjobs.append(("blockdb", gmp, False, tag, args, ex.submit(child, ctx, binp, "blockdb", tag, args, {"GOMAXPROCS": str(gmp)})))
+    tag = "b4r"
+    args = ["-seed", str(ctx.seed), "-rounds", "20", "-batch", "300"]
+    chjobs.append(("blockdb", 4, True, tag, args, ex.submit(child, ctx, binr, "blockdb", tag, args, dict(race_env(ctx, tag), GOMAXPROCS="4"))))
+
     # Ledger suite: exports first (TLC, sequential), then the replays
     lbin = ctx.build("ledger")
     lbinr = ctx.build("ledger", race=True)
@@ -458,6 +509,24 @@ def run(ctx):
     ctx.log("stress: %d deliveries over GOMAXPROCS %s, %d watcher parses" % (deliveries, list(procs), watcher_checks))
     ctx.cov["stress_deliveries"] = deliveries
     ctx.cov["watcher_checks"] = watcher_checks
+
+    # ---- 4c. refusals inside commitTxs / block writer next to BlockTrusted
+    nchild = {"refuse": 0, "blockdb": 0}
+    for cmd, gmp, race, tag, args, fut in chjobs:
+        summ, fails, crash = fut.result()
+        rp = {"cmd": "utxosave %s %s" % (cmd, " ".join(args)), "gomaxprocs": gmp, "race": race}
+        if race:
+            note_races(ctx, tag, rp)
+        if crash:
+            ctx.violation("%s:crash:%s:%s" % (ctx.pid, cmd, crash["func"]), dict(rp, crash=crash),
+                          "%s driver: the process died in %s: %s%s" % (cmd, crash["where"], crash["what"],
+                          " (a block refused inside commitTxs must leave no script worker behind)" if cmd == "refuse" else ""))
+        report_run(ctx, fails, "%s-gomaxprocs%d" % (cmd, gmp), rp)
+        if summ:
+            nchild[cmd] += summ.get("deliveries", 0) + summ.get("blocks", 0)
+    ctx.log("refusals inside commitTxs: %d deliveries; block writer vs BlockTrusted: %d blocks stored and read back" % (nchild["refuse"], nchild["blockdb"]))
+    ctx.cov["refused_block_deliveries"] = nchild["refuse"]
+    ctx.cov["blockdb_blocks_written_next_to_BlockTrusted"] = nchild["blockdb"]
 
     # ---- 4b. the Ledger G->R suite under GOMAXPROCS x VERIF_YIELD (+ race): the model is schedule-free
     base = {}
